@@ -97,7 +97,8 @@ VOp ==
 VTx ==
     /\ IsEv("Tx")
     /\ WellFormed(Ln.state)
-    /\ recd' = IF Ln.op = "delbucket"
+    /\ recd' = IF Ln.op = "none" THEN recd              \* a transaction that wrote nothing records nothing
+               ELSE IF Ln.op = "delbucket"
                THEN [recd EXCEPT ![Ln.topic] = [i \in Ids |-> 0]]
                ELSE [recd EXCEPT ![Ln.topic][Ln.id] = IF Ln.op = "put" THEN Ln.lvl ELSE 0]
     /\ segTx' = IF Ln.src = "collect" THEN segTx \cup {Ln.topic} ELSE segTx
